@@ -90,10 +90,15 @@ func outputTupleDir(v rel.Value, dir string, fs afero.Fs, dryRun bool) error {
 	if err != nil {
 		return err
 	}
-	if _, err := fs.Stat(dir); os.IsNotExist(err) && !dryRun {
-		if err := fs.Mkdir(dir, 0755); err != nil {
-			return err
+	if info, err := fs.Stat(dir); os.IsNotExist(err) {
+		if !dryRun {
+			if err := fs.Mkdir(dir, 0755); err != nil {
+				return err
+			}
 		}
+	} else if err == nil && !info.IsDir() {
+		// Found in the dry pass, before anything has been written.
+		return fmt.Errorf("dir output: %s exists and is not a directory", dir)
 	}
 
 	// this is to allow empty directory
@@ -152,6 +157,10 @@ func outputFile(content rel.Value, path string, fs afero.Fs, dryRun bool) error 
 		bytes = []byte{}
 	}
 
+	if info, err := fs.Stat(path); err == nil && info.IsDir() {
+		// Found in the dry pass, before anything has been written.
+		return fmt.Errorf("file output: %s exists and is a directory", path)
+	}
 	if dryRun {
 		return nil
 	}
